@@ -338,6 +338,7 @@ class Tensor:
         Copies all attributes of a tensor to this tensor
         """
         self.__dict__.update(tensor.__dict__)
+        self._grad = None # a tensor of its own: it does not share the gradient buffer of its source
         
     # *********************************
     # *********** Backprop ************
